@@ -138,6 +138,13 @@ def summary(prog, body, depth=3, args=None, stop=None, effects=None):
             cb = prog.bodies.get(name)
             if cb is not None and depth > 0 and cb is not body and not (stop and _re.search(stop, name)):
                 t = summary(prog, cb, depth - 1, list(a), stop, effects)
+            if t is None and _re.search(r"result::Result::<.*>::map$", name) and len(a) == 2 and a[1][0] == "fn":
+                # `x.map(f)` is `Ok(f(x?))`
+                fb = prog.bodies.get(a[1][1])
+                inner = summary(prog, fb, depth - 1, [("try", a[0])], stop, effects) if fb is not None and depth > 0 else None
+                if inner is None:
+                    inner = ("call", a[1][1], (("try", a[0]),))
+                t = ("adt", "Result", "Ok", (inner,))
             if t is None:
                 t = ("call", name, a)
                 used_calls.append(t)
@@ -224,6 +231,8 @@ def fmt(t, short=True):
         return "|..|{%s}" % "; ".join([fmt(e, short) for e in t[2]] + [fmt(t[1], short)])
     if k == "carg":
         return "a%d" % t[1]
+    if k == "cap":
+        return t[1]
     if k == "op":
         return "%s(%s)" % (t[1], ", ".join(fmt(a, short) for a in t[2]))
     if k == "discr":
